@@ -39,10 +39,12 @@ TInit ==
 Obs == l <= Len(Traces[tid]) /\ l' = l + 1 /\ UNCHANGED tid /\ params' = Abs(Ev.post)
 
 TGetSet == Ev.cmd = "get_then_set" /\ Ev.outcome = "ok" /\ GetSetRoundTrip /\ Obs
-TSetTok == /\ Ev.cmd = "set_params" /\ Ev.outcome = "ok" /\ Ev.args[1] \in {"symbolic_model", "sensor_models", "calibration_map"}
+TSetTok == /\ Ev.cmd = "set_params" /\ Ev.outcome = "ok" /\ Len(Ev.args) = 2 /\ Ev.args[1] \in {"symbolic_model", "sensor_models", "calibration_map"}
            /\ SetTok(Ev.args[1], Ev.args[2]) /\ Obs
 TSetPN == Ev.cmd = "set_params" /\ Ev.outcome = "ok" /\ Len(Ev.args) = 2 /\ Ev.args[1] = "process_noise" /\ SetPNoise(Ev.args[2]) /\ Obs
 TSetSN == Ev.cmd = "set_params" /\ Ev.outcome = "ok" /\ Ev.args[1] = "sensor_noises" /\ SetSNoise(Ev.args[2]) /\ Obs
+TSetModelNoise == /\ Ev.cmd = "set_params" /\ Ev.outcome = "ok" /\ Len(Ev.args) = 4 /\ Ev.args[1] = "symbolic_model"
+                  /\ SetModelAndNoise(Ev.args[2], Ev.args[4]) /\ Obs
 TSetField == /\ Ev.cmd = "set_params" /\ Ev.outcome = "ok" /\ Len(Ev.args) = 2 /\ Ev.args[1] \in ConfigFields
              /\ SetConfigField(Ev.args[1], Ev.args[2]) /\ Obs
 TSetTwo == /\ Ev.cmd = "set_params" /\ Ev.outcome = "ok" /\ Len(Ev.args) = 4 /\ Ev.args[1] \in ConfigFields
@@ -76,7 +78,7 @@ TFitFail == /\ Ev.cmd \in FitCmds /\ Ev.outcome = "MinimizationFailure" /\ l <= 
             /\ UNCHANGED <<tid, uni, orig, log, done>>
 
 TNext == l <= Len(Traces[tid]) /\
-         (TGetSet \/ TSetTok \/ TSetPN \/ TSetSN \/ TSetField \/ TSetTwo \/ TSetNoiseField \/ TSetCfgField \/ TSetConfig \/ TSetBogus \/ TClone \/ TQuery \/ TExport \/ TFitOk \/ TFitFail)
+         (TGetSet \/ TSetTok \/ TSetModelNoise \/ TSetPN \/ TSetSN \/ TSetField \/ TSetTwo \/ TSetNoiseField \/ TSetCfgField \/ TSetConfig \/ TSetBogus \/ TClone \/ TQuery \/ TExport \/ TFitOk \/ TFitFail)
 
 Reach == TLCSet(tid, IF TLCGet(tid) < l THEN l ELSE TLCGet(tid))
 Post == \A t \in 1..Len(Traces) :
